@@ -18,11 +18,72 @@ RULE = ("(a) mutate suite on ImmutableStructure classes and classes with Immutab
         "copy.copy, slice, +, *, reversed, get, items(), values(), |) x every object so obtained (depth 2) x every "
         "mutator found by introspection of its runtime type, each on a fresh instance, fingerprint = dump + hash + "
         "str + serialization; (c) later mutation of the constructor arguments; (d) subclassing "
-        "ImmutableStructure/FinalStructure/ImmutableField classes; non-trivial = >=1 op/probe; distinct by case hash")
+        "ImmutableStructure/FinalStructure/ImmutableField classes; (e) directed cases: mutable objects inside tuples / "
+        "untyped positions of immutable instances, and fields declared immutable=True (Anything, Tuple, Set, untyped and "
+        "typed Array/Deque/Map) inside a MUTABLE structure - accessor probe + constructor-argument aliasing with the whole "
+        "argument object graph walked; non-trivial = >=1 op/probe; distinct by case hash")
 ASSUMPTIONS = [
     "default configuration (defensive_copy_on_get on, no trusted instantiation); direct __dict__/object.__setattr__ access excluded",
     "the accessor half of the property is decided by the alias probe on the real code plus the accessor-table obligation; only top-level ops and nested-wrapper calls are in the Lean machine",
 ]
+
+
+# ---- field-level immutability of values that are not wrapper objects (Anything / Tuple / Set declared
+# immutable=True inside a MUTABLE structure): oracle-only cases, built directly (no model counterpart)
+def _immfield_specs():
+    from typedpy import Anything, Integer, Tuple, Array, Map, String, Set, Deque
+    return {
+        "anything": (lambda: Anything(immutable=True),
+                     [["a", ["b"]], {"k": [1]}, (["a", "b"], "meta"), [([1],)], {"k": ({"z": [1]},)}]),
+        "tuple": (lambda: Tuple(items=[Anything, Integer], immutable=True), [(["a"], 1), ({"k": 1}, 2), (([1],), 3)]),
+        "array-untyped": (lambda: Array(immutable=True), [[[1], {"k": 2}], [([1],)]]),
+        "array-anything": (lambda: Array(items=Anything, immutable=True), [[[1], {"k": 2}, ([3],)]]),
+        "deque-untyped": (lambda: Deque(immutable=True), [[[1], ([2],)]]),
+        "map-untyped": (lambda: Map(immutable=True), [{"a": [1]}, {"a": ([1],)}]),
+        "map-typed": (lambda: Map(items=[String, Array[Integer]], immutable=True), [{"a": [1]}]),
+        "array-array": (lambda: Array(items=Array[Integer], immutable=True), [[[1], [2]]]),
+        "set": (lambda: Set(immutable=True), [{1, 2}]),
+        "set-typed": (lambda: Set(items=Integer, immutable=True), [{1, 2}]),
+    }
+
+
+def immfield_cases():
+    out = []
+    for name, (_, vals) in sorted(_immfield_specs().items()):
+        for vi in range(len(vals)):
+            out.append({"suite": "immfield", "spec": name, "value": vi})
+    return out
+
+
+def run_immfield(case):
+    from typedpy import Structure, Integer
+    mk, vals = _immfield_specs()[case["spec"]]
+    v = vals[case["value"]]
+    ctx = C.make_ctx()
+    try:
+        H = type("H", (Structure,), {"f": mk(), "n": Integer, "_required": ["f"]})
+        build = lambda: H(f=copy.deepcopy(v), n=1)
+        build()
+    except Exception as e:
+        return {"skip": f"{type(e).__name__}: {e}"[:200]}
+    res = {"probe": [r for r in aliasprobe.probe(build, ctx) if r["changed"] and r["field"] == "f"][:50]}
+    leaks = []
+    n_targets = len(aliasprobe.reachable_mutables(copy.deepcopy(v)))
+    for ti in range(n_targets):
+        for mi in range(len(aliasprobe.mutation_attempts(aliasprobe.reachable_mutables(copy.deepcopy(v))[ti][1]))):
+            arg = copy.deepcopy(v)
+            x = H(f=arg, n=1)
+            fp0 = aliasprobe.fingerprint(x, ctx)
+            path, o = aliasprobe.reachable_mutables(arg)[ti]
+            mlabel, attempt = aliasprobe.mutation_attempts(o)[mi]
+            try:
+                attempt()
+            except Exception:
+                pass
+            if aliasprobe.fingerprint(x, ctx) != fp0:
+                leaks.append({"field": "f", "via": _short_path(path), "mut": mlabel})
+    res["ctor_leaks"] = leaks[:20]
+    return res
 
 
 def pre_build():
@@ -54,6 +115,31 @@ def alias_cases(rng, n):
         if kw is gen.NOVALUE:
             continue
         cases.append({"suite": "construct", "probe": True, "cls": cls, "kw": kw, "re": gen.re_table(cls, kw)})
+    # directed: mutable objects held inside tuples / untyped positions (kept by reference by design in a
+    # mutable structure, but an ImmutableStructure must not alias them to the caller)
+    T = lambda *xs: {"t": list(xs)}
+    L = lambda *xs: {"l": list(xs)}
+    M = lambda *kvs: {"m": [list(kv) for kv in kvs]}
+    directed = [
+        ({"k": "anything"}, T(L("a", "b"), "meta")),
+        ({"k": "anything"}, T(M(["k", 1]), T(L(1)))),
+        ({"k": "anything"}, L(T(L(1), 2), M(["k", L(3)]))),
+        ({"k": "anything"}, M(["k", T(L(1))])),
+        ({"k": "tuplePos", "items": [{"k": "anything"}, {"k": "integer"}]}, T(L("a", "b"), 1)),
+        ({"k": "tupleOf", "item": {"k": "anything"}}, T(L(1), M(["k", 1]))),
+        ({"k": "seqOf", "item": {"k": "anything"}}, L(T(L(1)), L(2))),
+        ({"k": "mapOf", "key": {"k": "string"}, "val": {"k": "anything"}}, M(["a", T(L(1))], ["b", L(T(M(["z", 1])))])),
+        ({"k": "seqAny"}, L(T(L(1)), L(2), M(["k", 1]))),
+        ({"k": "mapAny"}, M(["a", T(L(1))], ["b", L(2)])),
+        ({"k": "tupleOf", "item": {"k": "seqAny"}}, T(L(1, 2), L())),
+        ({"k": "tupleOf", "item": {"k": "seqOf", "item": {"k": "integer"}}}, T(L(1, 2), L(3))),
+        ({"k": "tuplePos", "items": [{"k": "mapAny"}, {"k": "seqOf", "item": {"k": "string"}}]}, T(M(["k", 1]), L("a"))),
+    ]
+    for di, (fd, v) in enumerate(directed):
+        cls = {"k": "struct", "name": f"D{di}", "required": ["a"], "addl": False, "fields": [["a", fd]], "immutable": True}
+        C.fix_accepts(cls)
+        kw = [["a", v]]
+        cases.append({"suite": "construct", "probe": True, "cls": cls, "kw": kw, "re": gen.re_table(cls, kw)})
     cases.append({"suite": "construct", "subclassing": True, "cls": {"k": "struct", "name": "Sub0", "required": [], "addl": True, "fields": [["a", {"k": "integer"}]], "immutable": True, "accepts": ["Sub0"]},
                   "kw": [["a", 1]], "re": []})
     return cases
@@ -62,7 +148,7 @@ def alias_cases(rng, n):
 def cases(rng, tier):
     n = 250 if tier == "quick" else 3000
     return S.gen_cases(rng, tier, n, immutable=True) + S.gen_cases(rng, tier, n // 2, immutable=None) \
-        + alias_cases(rng, 25 if tier == "quick" else 400)
+        + alias_cases(rng, 25 if tier == "quick" else 400) + immfield_cases()
 
 
 def search_cases(rng, tier):
@@ -72,6 +158,8 @@ def search_cases(rng, tier):
 def run_impl(case):
     if case["suite"] == "mutate":
         return S.run_impl(case)
+    if case["suite"] == "immfield":
+        return run_immfield(case)
     res = C.run_impl(case)
     if "ok" not in res:
         return res
@@ -100,32 +188,51 @@ def run_impl(case):
         x = cls(**kw)
         fp0 = aliasprobe.fingerprint(x, ctx)
         leaks = []
-        for k, v in kw.items():
-            targets = [("arg", v)] + ([("arg>elem", e) for e in (list(v.values()) if isinstance(v, dict) else list(v))]
-                                      if isinstance(v, (list, dict, set)) or type(v).__name__ == "deque" else [])
-            for path, o in targets:
-                for mlabel, attempt in aliasprobe.mutation_attempts(o):
+        for k in list(kw):
+            n_targets = len(aliasprobe.reachable_mutables(kw[k]))
+            for ti in range(n_targets):
+                n_att = len(aliasprobe.mutation_attempts(aliasprobe.reachable_mutables(kw[k])[ti][1]))
+                for mi in range(n_att):
+                    # fresh arguments and a fresh instance for every single mutation attempt
+                    kw2 = {k2: dump.load_value(v2, ctx) for k2, v2 in case["kw"]}
+                    x = cls(**kw2)
+                    fp0 = aliasprobe.fingerprint(x, ctx)
+                    targets = aliasprobe.reachable_mutables(kw2[k])
+                    if ti >= len(targets):
+                        continue
+                    path, o = targets[ti]
+                    atts = aliasprobe.mutation_attempts(o)
+                    if mi >= len(atts):
+                        continue
+                    mlabel, attempt = atts[mi]
                     try:
                         attempt()
                     except Exception:
                         pass
                     if aliasprobe.fingerprint(x, ctx) != fp0:
-                        leaks.append({"field": k, "via": path, "mut": mlabel})
-                        x = cls(**{k2: dump.load_value(v2, ctx) for k2, v2 in case["kw"]})
-                        fp0 = aliasprobe.fingerprint(x, ctx)
+                        leaks.append({"field": k, "via": _short_path(path), "mut": mlabel})
         res["ctor_leaks"] = leaks[:20]
     except Exception as e:
         res["probe_error"] = f"{type(e).__name__}: {e}"
     return res
 
 
+def _short_path(path):
+    parts = path.split(">")
+    return ">".join(parts[:1] + sorted(set(parts[1:]))) if len(parts) > 3 else path
+
+
 def line(case, impl):
+    if case["suite"] == "immfield":
+        return None
     return S.line(case, impl) if case["suite"] == "mutate" else C.line(case, impl)
 
 
 def tags(case, impl, model):
     if case["suite"] == "mutate":
         return S.tags(case, impl, model)
+    if case["suite"] == "immfield":
+        return ["immfield:" + case["spec"]]
     return ["alias-probe" if case.get("probe") else "subclassing"] + (["impl:skipped"] if "ok" not in impl else [])
 
 
@@ -136,11 +243,21 @@ def nontrivial(case):
 def describe(case, impl, model):
     if case["suite"] == "mutate":
         return S.describe(case, impl, model)
+    if case["suite"] == "immfield":
+        return {"immfield": case, "probe_changed": impl.get("probe"), "ctor_leaks": impl.get("ctor_leaks")}
     return {"cls": case["cls"], "kw": case["kw"], "probe_changed": impl.get("probe"), "ctor_leaks": impl.get("ctor_leaks")}
 
 
 def judge(case, impl, model):
     fails = []
+    if case["suite"] == "immfield":
+        for r in impl.get("probe", []):
+            fails.append((f"immfield-leak:{case['spec']}:{r['via']}:{r['mut']}",
+                          f"immutable field ({case['spec']}, immutable=True) of a mutable structure changed by {r['mut']} on an object obtained via {r['via']}"))
+        for r in impl.get("ctor_leaks", []):
+            fails.append((f"immfield-ctor-arg-alias:{case['spec']}:{r['via']}:{r['mut']}",
+                          f"immutable field ({case['spec']}) changed by mutating the constructor argument ({r['via']}, {r['mut']})"))
+        return None, fails
     if case["suite"] != "mutate":
         msg = C.correspondence(case, impl, model)
         if "probe_error" in impl:
